@@ -154,13 +154,40 @@ theorem finding_idem_negred_decimal :
     twice { zs with numFmt := 165, decimalPlaces := some 3, negRed := true } = .ok (1, 2) := by
   decide +kernel
 
-/-- `Fill{Type:"pattern", Pattern:0}` resolves to fill 0; registered twice it gets ids 1 and 2 -/
-theorem finding_idem_component_index_0 :
-    twice { zs with fill := ⟨"pattern".toList, 0, [], 0⟩ } = .ok (1, 2) := by
+/-- fixed (`idem:component-index-0`): what `setCellXfs` writes for a component index is what the
+lookup accepts, for EVERY index — the apply flag is set for non-zero ids, and id 0 applies without it -/
+theorem created_component_is_found (n : Nat) :
+    xfApplied n (if n ≠ 0 then some true else none) = true := by
+  unfold xfApplied; split <;> simp_all
+
+/-- … so `Fill{Type:"pattern", Pattern:0}` (fill 0) is the default style, both times -/
+theorem component_index_0_deduplicated :
+    twice { zs with fill := ⟨"pattern".toList, 0, [], 0⟩ } = .ok (0, 0) := by
   decide +kernel
 
-/-- `NumFmt: 63` is stored as numFmtId 0 but looked up as 63 -/
-theorem finding_idem_numfmt_63 : twice { zs with numFmt := 63 } = .ok (1, 2) := by
+def reregIds (id : Int) : Except Err (Nat × Nat) :=
+  match getStyle (fun _ => -1) initReg id with
+  | .error e => .error e
+  | .ok g =>
+    match newStyle initReg g with
+    | .error e => .error e
+    | .ok (r1, id1, _) =>
+      match newStyle r1 g with
+      | .error e => .error e
+      | .ok (_, id2, _) => .ok (id1, id2)
+
+/-- the definition read back from the default style is found again: the same id on repetition -/
+theorem reregister_default_idempotent : ∃ i, reregIds 0 = .ok (i, i) := by
+  refine ⟨0, ?_⟩
+  decide +kernel
+
+/-- fixed (`idem:numfmt-63-66`): lookup (`getNumFmtID`) and creation (`newNumFmt`/`isLangNumFmt`) use the
+same id ranges, for all ids -/
+theorem getnumfmt_ranges_agree : Facts.C17.getNumFmtRanges = Facts.C17.langRanges := by decide
+
+/-- … so number formats 63..66 are the default style, both times -/
+theorem numfmt_63_66_deduplicated :
+    ∀ n ∈ [(63 : Int), 64, 65, 66], twice { zs with numFmt := n } = .ok (0, 0) := by
   decide +kernel
 
 /-- a fill of unknown type is dropped on creation but demanded on lookup -/
@@ -196,11 +223,24 @@ def collide : Except Err (Nat × Nat × Option Str) :=
       | .error e => .error e
       | .ok g => .ok (id1, id2, g.customNumFmt)
 
-/-- numFmtIds are allocated from 164, the range of the currency format ids: after
-`NewStyle{NumFmt:165, DecimalPlaces:3}` (numFmtId 164), `NewStyle{NumFmt:164}` is "found" as that
-style — the same id, reading back the 165 format with three decimals -/
-theorem finding_readback_currency_id_collision :
-    collide = .ok (1, 1, some "[$$-409]#,##0.000".toList) := by
+/-- fixed (`readback:currency-id-collision`): a currency format whose code is not stored yet matches
+NO xf, whatever numFmtId the xf carries — for every registry, style and xf -/
+theorem currency_unregistered_never_matches (r : Reg) (s : Style) (xf : Xf) (code : Str)
+    (hb : (builtIn s.numFmt).isSome = false) (hr : inRanges s.numFmt Facts.C17.getNumFmtRanges = false)
+    (hc : currency s.numFmt = some code) (hn : (numFmtList r).find? (·.code == code) = none)
+    (hcu : s.customNumFmt = none) :
+    xfNumFmt (getNumFmtID r s) xf s = false := by
+  have hid : getNumFmtID r s = Facts.C17.currencyUnregisteredId := by
+    unfold getNumFmtID; simp [hb, hr, hc, hn]
+  have hv : Facts.C17.currencyUnregisteredId = -2 := by decide
+  rw [hid, hv]
+  unfold xfNumFmt
+  simp [hcu]
+
+/-- … the case found by the thorough tier: `NewStyle{NumFmt:165, DecimalPlaces:3}` (numFmtId 164), then
+`NewStyle{NumFmt:164}` is a NEW style reading back the yen format -/
+theorem currency_id_no_collision :
+    collide = .ok (1, 2, some "\"\xc2\xa5\"#,##0.00".toList) := by
   decide +kernel
 
 def grad2 : Style := { zs with fill := ⟨"gradient".toList, 0, ["112233".toList, "445566".toList], 2⟩ }
@@ -213,9 +253,19 @@ def readFill (s : Style) : Except Err Fill :=
     | .error e => .error e
     | .ok g => .ok g.fill
 
-/-- three-stop gradient (Shading 2): read back as Shading 0 with three colours -/
-theorem finding_readback_gradient_3stop :
-    readFill grad2 = .ok ⟨"gradient".toList, 0, ["112233".toList, "445566".toList, "112233".toList], 0⟩ := by
+/-- every preset variant is identified by its attributes together with its number of stops -/
+theorem readShading_id : ∀ sh ∈ List.range 17, readShading sh = (sh : Int) := by decide +kernel
+
+/-- fixed (`readback:gradient-3stop`): every gradient fill record `newFills` can store (all 17 variants,
+any two colours) reads back with its own shading index and its two colours -/
+theorem gradient_roundtrip (sh : Nat) (hsh : sh < 17) (c0 c1 : Str) :
+    extractFills (.gradient sh c0 c1) = ⟨"gradient".toList, 0, [themeColor c0, themeColor c1], sh⟩ := by
+  unfold extractFills
+  simp only
+  rw [readShading_id sh (List.mem_range.mpr hsh)]
+
+theorem gradient_3stop_reads_back :
+    readFill grad2 = .ok ⟨"gradient".toList, 0, ["112233".toList, "445566".toList], 2⟩ := by
   decide +kernel
 
 def reregFill (s : Style) : Except Err (Fill × Fill) :=
@@ -232,11 +282,11 @@ def reregFill (s : Style) : Except Err (Fill × Fill) :=
         | .error e => .error e
         | .ok g2 => .ok (g.fill, g2.fill)
 
-/-- DESIGN §6 reconnaissance reproduced: `GetStyle(NewStyle(GetStyle(id)))` ≠ `GetStyle(id)` for a
-three-stop gradient -/
-theorem finding_rereg_gradient_3stop :
-    reregFill grad2 = .ok (⟨"gradient".toList, 0, ["112233".toList, "445566".toList, "112233".toList], 0⟩,
-                           Fill.zero) := by
+/-- fixed (`rereg:gradient-3stop`, DESIGN §6 reconnaissance): the three-stop gradient read back and
+registered again has the same fill definition -/
+theorem gradient_3stop_reregisters :
+    reregFill grad2 = .ok (⟨"gradient".toList, 0, ["112233".toList, "445566".toList], 2⟩,
+                           ⟨"gradient".toList, 0, ["112233".toList, "445566".toList], 2⟩) := by
   decide +kernel
 
 /-- an empty fill record (out-of-range pattern) reads back as `Fill{}` and re-registers as pattern 0 -/
@@ -267,6 +317,12 @@ theorem tables_cover_guards :
 row's if set, otherwise the column's — all eight combinations of set/unset -/
 theorem resolve_cell_row_col (g : Grid) (c r : Nat) (hr : 1 ≤ r) :
     prepareCellStyle g c r (cellS g c r) = Spec.resolve (levelsOf g) c r :=
+  prepareCellStyle_eq_resolve g c r hr
+
+/-- `GetCellStyle` is a pure read (since the C04 repair it creates neither rows nor cells): it
+returns the three-level resolution of the grid as stored, for cells that exist and cells that do not -/
+theorem getcellstyle_resolves (g : Grid) (c r : Nat) (hr : 1 ≤ r) :
+    getCellStyle g c r = Spec.resolve (levelsOf g) c r :=
   prepareCellStyle_eq_resolve g c r hr
 
 /-- the eight combinations spelled out on the Spec -/
